@@ -207,6 +207,31 @@ class Ctx:
             return
         self.s.add(z3bool(b))
 
+    def timed_check(self, solver, timeout_ms):
+        """solver.check() with z3's own timeout plus a watchdog that interrupts the context shortly after the deadline: z3 does not
+        look at its timeout inside some quantifier-instantiation and nonlinear procedures, and a check that never returns would turn
+        into a task that runs until its wall-clock budget.  An interrupted check is 'unknown'."""
+        import threading
+        solver.set('timeout', int(timeout_ms))
+        fired = []
+
+        def stop():
+            fired.append(1)
+            try:
+                solver.ctx.interrupt()
+            except Exception:
+                pass
+        w = threading.Timer(timeout_ms / 1000.0 * 1.2 + 2.0, stop)
+        w.daemon = True
+        w.start()
+        try:
+            r = solver.check()
+        except z3.Z3Exception:
+            r = z3.unknown
+        finally:
+            w.cancel()
+        return r
+
     def forked_check(self, solver, timeout_ms, want_model=False):
         """run solver.check() in a forked child that is killed at the deadline: z3's own timeout is not honoured inside
         some nonlinear-arithmetic procedures.  Returns (z3 result, model dict | None)."""
@@ -258,7 +283,7 @@ class Ctx:
         if self.cfg.extra.get('fork_solver'):
             r, _ = self.forked_check(self.s, self.cfg.branch_timeout_ms)
         else:
-            r = self.s.check()
+            r = self.timed_check(self.s, self.cfg.branch_timeout_ms)
         self.solver_ms += (time.time() - t0) * 1000
         self.s.pop()
         return r != z3.unsat
@@ -321,8 +346,9 @@ class Ctx:
             if self.cfg.extra.get('fork_solver'):
                 r, fmodel = self.forked_check(self.s, self.cfg.prove_timeout_ms, want_model=True)
             else:
-                self.s.set('timeout', self.cfg.prove_timeout_ms)
-                r = self.s.check()
+                # a must-fail clause (vacuity guard) needs one path that refutes it; a path whose quantified context the solver
+                # cannot build a model for is left 'unknown' after a short budget
+                r = self.timed_check(self.s, min(self.cfg.prove_timeout_ms, 15000) if oid.endswith('.mustfail') else self.cfg.prove_timeout_ms)
             self.s.set('timeout', self.cfg.branch_timeout_ms)
             ms = (time.time() - t0) * 1000
             self.solver_ms += ms
@@ -343,7 +369,17 @@ class Ctx:
         backend = 'z3'
         model = None
         forked = bool(self.cfg.extra.get('fork_solver'))
-        if forked:
+        # a must-fail clause (vacuity guard) only has to be *not proved*: a contradictory context is refuted at once, a path on which
+        # the solver cannot build a model of the quantified context is left 'unknown' after a short budget (another path refutes it)
+        guard = oid.endswith('.mustfail')
+        if guard and forked:
+            fs = z3.Solver()
+            fs.set('random_seed', self.cfg.seed)
+            for a_ in self.s.assertions():
+                fs.add(a_)
+            r, model = self.forked_check(fs, min(self.cfg.prove_timeout_ms, 15000), want_model=True)
+            backend = 'z3-forked'
+        elif forked:
             fs = z3.Solver()
             fs.set('random_seed', self.cfg.seed)
             for a_ in self.s.assertions():
@@ -351,19 +387,19 @@ class Ctx:
             r, model = self.forked_check(fs, self.cfg.prove_timeout_ms, want_model=True)
             backend = 'z3-forked'
         else:
-            self.s.set('timeout', min(self.cfg.prove_timeout_ms, 5000))      # quick incremental attempt; fresh solvers get the full budget
-            r = self.s.check()
+            r = self.timed_check(self.s, min(self.cfg.prove_timeout_ms, 5000))      # quick incremental attempt; fresh solvers get the full budget
         ms = (time.time() - t0) * 1000
-        if r == z3.unknown and not forked:
+        if r == z3.unknown and guard:
+            pass
+        elif r == z3.unknown and not forked:
             # the incremental solver gives up more easily (no preprocessing): retry the same query on fresh solvers
             for seed in (self.cfg.seed, self.cfg.seed + 7, self.cfg.seed + 101):
                 fs = z3.Solver()
-                fs.set('timeout', self.cfg.prove_timeout_ms)
                 fs.set('random_seed', seed)
                 for a_ in self.s.assertions():
                     fs.add(a_)
                 t1 = time.time()
-                r = fs.check()
+                r = self.timed_check(fs, self.cfg.prove_timeout_ms)
                 ms += (time.time() - t1) * 1000
                 if r == z3.sat:
                     model = self.model_dict(fs.model())
@@ -375,7 +411,7 @@ class Ctx:
         if r == z3.sat:
             if model is None and not forked:
                 model = self.model_dict(self.s.model())
-        elif r == z3.unknown and self.cfg.use_cvc5:
+        elif r == z3.unknown and self.cfg.use_cvc5 and not guard:
             smt2 = self.s.to_smt2()
             t1 = time.time()
             r2 = cvc5_check(smt2, self.cfg.prove_timeout_ms)
@@ -405,7 +441,8 @@ class Ctx:
         if self.covers.get(cid):
             return
         t0 = time.time()
-        r = self.s.check()
+        r = self.timed_check(self.s, max(self.cfg.branch_timeout_ms, 30000))
+        self.s.set('timeout', self.cfg.branch_timeout_ms)
         self.solver_ms += (time.time() - t0) * 1000
         self.covers[cid] = (r == z3.sat) or self.covers.get(cid, False)
 
@@ -490,7 +527,7 @@ def explore(task_fn, cfg):
 
 def _path_model(ctx):
     try:
-        if ctx.s.check() == z3.sat:
+        if ctx.timed_check(ctx.s, 30000) == z3.sat:
             return ctx.model_dict(ctx.s.model())
     except Exception:
         pass
